@@ -2,9 +2,9 @@
 # usage: verify_seed.sh <outdir> <i> <prop>
 # Confirms a seeded change in a scratch worktree: demo passes on the unmodified tree, the existing suite passes
 # with the change, the demo fails with the change. On success stores it under /verif/seeded/<prop>-<i>/.
-out=$1; i=$2; prop=$3
+out=$1; i=$2; prop=$3; tgt=${4:-$i}
 export GOFLAGS=-mod=mod GOPROXY=off GOSUMDB=off GOTOOLCHAIN=local
-wt=/tmp/vs-$prop-$i
+wt=/tmp/vs-$prop-$tgt
 git -C /repo worktree remove --force $wt 2>/dev/null
 git -C /repo worktree add -q --detach $wt HEAD || exit 3
 trap "git -C /repo worktree remove --force $wt" EXIT
@@ -24,7 +24,7 @@ go test -vet=off -count=1 ./$dir/ > /tmp/vs.$$.log 2>&1; r2=$?; grep -E '^(---|F
 rm -f /tmp/vs.$$.log
 echo "demo_clean=$r0 suite_changed=$r1 demo_changed=$r2"
 if [ $r0 -eq 0 ] && [ $r1 -eq 0 ] && [ $r2 -ne 0 ]; then
-  d=/verif/seeded/$prop-$i; mkdir -p $d
+  d=/verif/seeded/$prop-$tgt; mkdir -p $d
   cp $out/change$i.diff $d/patch.diff; cp $out/demo${i}_test.go $d/demo_test.go; cp $out/note$i.md $d/note.md
   echo "CONFIRMED -> $d"
 else
